@@ -44,11 +44,12 @@ fn gen_case(rng: &mut impl Rng, m: usize, kind: usize) -> Case {
 fn build(c: &Case) -> ScoringMatrix<A> {
     let mut d = DenseMatrix::<f32, <A as Alphabet>::K>::new(c.cells.len());
     for (i, row) in c.cells.iter().enumerate() {
-        for (j, &x) in row.iter().enumerate() { d[i][j] = x as f32 / c.g as f32; }
+        // a row of 4 cells leaves the wildcard at -inf (what count data gives); a row of 5 cells sets it too
         d[i][4] = f32::NEG_INFINITY;
+        for (j, &x) in row.iter().enumerate() { d[i][j] = x as f32 / c.g as f32; }
     }
     let mut f: Vec<f32> = c.bn.iter().map(|&x| x as f32 / c.bd as f32).collect();
-    f.push(0.0);
+    if f.len() == 4 { f.push(0.0); }
     let ga: GenericArray<f32, <A as Alphabet>::K> = f.into_iter().collect();
     ScoringMatrix::new(Background::new(ga).expect("valid background"), d)
 }
@@ -71,6 +72,21 @@ fn attainable(c: &Case) -> Vec<i64> {
     s.into_iter().collect()
 }
 
+/// The wildcard as one more symbol of the word model: finite wildcard scores and a background that gives the wildcard a
+/// frequency of its own (bn doubled, one unit moved from the most frequent symbol to N).  In the events such a case is
+/// written with K = 6: five ordinary symbols and an unused sixth column, so that the specification needs no special case.
+fn with_wildcard(rng: &mut impl Rng, mut c: Case) -> Case {
+    let lo = c.cells.iter().flatten().cloned().min().unwrap();
+    let hi = c.cells.iter().flatten().cloned().max().unwrap();
+    for row in c.cells.iter_mut() { let v = rng.gen_range(lo..=hi); row.push(v); }
+    c.bn = c.bn.iter().map(|&x| 2 * x).collect();
+    c.bd *= 2;
+    let j = (0..4).max_by_key(|&j| c.bn[j]).unwrap();
+    c.bn[j] -= 1;
+    c.bn.push(1);
+    c
+}
+
 fn bn5(c: &Case) -> Vec<i64> { let mut b = c.bn.clone(); b.push(0); b }
 
 fn pssm_json(c: &Case) -> Vec<Vec<i64>> {
@@ -85,6 +101,8 @@ pub fn record_c11(rec: &mut Recorder, seed: u64, thorough: bool) {
     for it in 0..n {
         let m = if it % 10 == 9 { rng.gen_range(7..=8) } else { 1 + it % 6 };
         let c = gen_case(&mut rng, m, it);
+        let c = if it % 4 == 2 && m <= 6 { with_wildcard(&mut rng, c) } else { c };
+        let kk = c.cells[0].len() + 1;
         let dn = den(&c);
         let r = guarded(|| {
             let pssm = build(&c);
@@ -120,7 +138,8 @@ pub fn record_c11(rec: &mut Recorder, seed: u64, thorough: bool) {
         rec.reset();
         rec.class(&format!("M{}", m.min(7)));
         rec.nontrivial(&(c.cells.clone(), c.bn.clone()));
-        let mut e = json!({"ev":"dist","K":5,"G":G,"pssm":pssm_json(&c),"bn":bn5(&c),"bd":c.bd,"den":dn as i64});
+        if kk == 6 { rec.class("wildcard_with_own_frequency_and_finite_scores"); }
+        let mut e = json!({"ev":"dist","K":kk,"G":G,"pssm":pssm_json(&c),"bn":bn5(&c),"bd":c.bd,"den":dn as i64});
         match r {
             Ok(v) => { e["ret"] = json!("ok"); for (k, x) in v.as_object().unwrap() { e[k] = x.clone(); } }
             Err(msg) => { e["ret"] = json!("panic"); e["msg"] = json!(msg); }
@@ -272,8 +291,58 @@ pub fn record_c13(rec: &mut Recorder, seed: u64, thorough: bool) {
             rec.emit(e);
         }
     }
+    tiny_p(rec, &mut rng, thorough);
 }
 
+
+/// p of the order of 1e-17: a background (125, 1, 1, 1) / 128 whose rare symbols carry the high scores, width 6..8, so
+/// that the best words are rarer than the f64 epsilon.  bd^M does not fit the 32-bit integers of TLC: the event carries
+/// `sat` (cap of the saturating distribution of Dist.tla) instead of a usable `den`, and p = pn / (pc * 128^M) with small pn.
+fn tiny_p(rec: &mut Recorder, rng: &mut impl Rng, thorough: bool) {
+    let n = if thorough { 40 } else { 12 };
+    for it in 0..n {
+        // width 8: 128^8 = 2^56, so p = pn / (pc 2^56) with pn / pc <= 15 is below the f64 epsilon; every other matrix has
+        // widely spaced scores (the best words are then alone within (M + 2) g of the maximum)
+        let m = if it % 4 == 3 { 7 } else { 8 };
+        let f = it % 4;
+        let spaced = it % 2 == 0;
+        let cells: Vec<Vec<i64>> = (0..m).map(|_| (0..4).map(|k| if k == f { rng.gen_range(-8..=0) }
+            else if spaced { [0i64, 36, 44, 80][rng.gen_range(0..4)] } else { rng.gen_range(0..=20) }).collect()).collect();
+        let mut bn = vec![1i64; 4];
+        bn[f] = 125;
+        let c = Case { cells, bn, bd: 128, g: G };
+        let pssm = build(&c);
+        let tl = tails(&c);
+        let dnf = 128f64.powi(m as i32);
+        let mut ps: Vec<(i64, i64)> = Vec::new();   // (pn, pc)
+        for &(_, nn) in tl.iter().take(if thorough { 14 } else { 8 }) {
+            if nn > 0 && nn < (1 << 20) { ps.push((nn, 1)); ps.push((2 * nn + 1, 2)); if nn > 1 { ps.push((2 * nn - 1, 2)); } }
+        }
+        ps.sort(); ps.dedup();
+        for &(pn, pc) in &ps {
+            let p = pn as f64 / (pc as f64 * dnf);
+            let r = guarded(|| {
+                let mut t = TfmPvalue::new(&pssm);
+                let mut iters = Vec::new();
+                for (k, it) in t.approximate_score(p).enumerate() {
+                    let gk = (1.0 / it.granularity).round() as i64;
+                    let tk = (it.score / it.granularity).round();
+                    let off = (it.score / it.granularity - tk).abs() > 1e-3;
+                    iters.push(json!({"k": k + 1, "ginv": gk, "tk": tk as i64, "offgrid": if off {1} else {0}, "conv": it.converged}));
+                    if k >= 4 { break; }
+                }
+                iters
+            });
+            rec.reset();
+            rec.class("tfm_score");
+            rec.class("p_below_f64_epsilon");
+            rec.nontrivial(&(c.cells.clone(), c.bn.clone(), pn, pc));
+            let mut e = json!({"ev":"tfm_score","K":5,"G":c.g,"pssm":pssm_json(&c),"bn":bn5(&c),"bd":c.bd,"den":0,"sat":8388608,"pn":pn,"pd":1,"pc":pc});
+            match r { Ok(v) => { e["ret"] = json!("ok"); e["iters"] = json!(v); } Err(msg) => { e["ret"] = json!("panic"); e["msg"] = json!(msg); e["iters"] = json!([]); } }
+            rec.emit(e);
+        }
+    }
+}
 
 /// Diagnostic only (`lmconform explore C13 - --seed N`): how often each matrix family exposes a final threshold that is
 /// further than (M + 2) g from the exact one.  Not part of any check; used to design the drivers.
